@@ -24,6 +24,15 @@ HOSTILE = [
     "(import (no such library))", "(import (only (scheme base) car))", "(car '())", "(undefined-procedure 1)", "(vector-ref (vector) 0)", "(/ 1 0)",
     "(define (map f l) 'a-map)", "(define apply 5)", "(my-mac 1 2)", "(cond (#t 1))", "(let ((q 1)) q)",
 ]
+# library sources registered with instance A only: macros before and inside the define-library form, named like procedures that B defines
+A_LIBS = [
+    {"name": ["util", "counter"], "src": "(define-syntax twice (syntax-rules () ((twice e) (begin e e)))) (define-library (util counter) (import (scheme base)) (export inc) "
+                                         "(begin (define-syntax local-mac (syntax-rules () ((local-mac e) 'a-local))) (define (inc x) (+ x 1))))"},
+    {"name": ["util", "wrap"], "src": "(define-syntax wrap (syntax-rules () ((wrap e) (list 'wrapped-by-a e)))) (define-syntax id (syntax-rules () ((id e) 'a-id))) "
+                                      "(define-library (util wrap) (import (scheme base)) (export w) (begin (define (w x) (wrap x))))"},
+]
+B_PROCS = ["(define (twice f) (lambda (x) (f (f x))))", "((twice (lambda (x) (+ x 1))) 5)", "(define (local-mac x) (list 'b-local x))", "(local-mac 3)",
+           "(define (wrap x) (list 'b-wrap x))", "(wrap 4)", "(define (id x) x)", "(id 9)"]
 B_MACROS = ["(define-syntax my-mac (syntax-rules () ((my-mac a b) (list 'B b a))))", "(my-mac 1 2)",
             "(define-syntax twice! (syntax-rules () ((twice! e) ((lambda () e e)))))", "(twice! (tick 500 7))"]
 
@@ -75,6 +84,10 @@ def run(tier, seed):
         if rng.random() < 0.4:
             pos = rng.randrange(len(B) + 1)
             B = B[:pos] + B_MACROS[:2] + B[pos:] + (B_MACROS[2:] if rng.random() < 0.5 else [])
+        if rng.random() < 0.35:
+            pos = rng.randrange(len(B) + 1)
+            k = rng.choice([0, 2, 4, 6])
+            B = B[:pos] + B_PROCS[k:k + 2] + B[pos:]
         A = program(rng, rng.choice(["core", "derived", "store"]))
         for _ in range(rng.randint(1, 5)):
             A.insert(rng.randrange(len(A) + 1), rng.choice(HOSTILE))
@@ -82,6 +95,8 @@ def run(tier, seed):
     spec = {"stdlib": True}
     jobs, meta = [], []
     for pi, (A, B) in enumerate(pairs):
+        # instance A (and the instances created later) sometimes carry registered library sources with macros in them
+        aspec = dict(spec, libs=A_LIBS) if pi % 2 else spec
         jobs.append({"id": "alone-%d" % pi, "interps": [spec], "steps": [{"it": 0, "src": t} for t in B], "fuel": 100000}); meta.append(("alone", pi, None))
         for k in range(nint):
             # random merge of A and B
@@ -95,11 +110,11 @@ def run(tier, seed):
                     steps.append({"syntax_table": True})
                     steps.append({"it": 0, "src": A[ia]}); ia += 1
                     steps.append({"syntax_table": True})
-                    steps.append({"new": spec}); extra += 1
+                    steps.append({"new": aspec}); extra += 1
                 else:
                     bpos.append(len(steps))
                     steps.append({"it": 1, "src": B[ib]}); ib += 1
-            jobs.append({"id": "mix-%d-%d" % (pi, k), "interps": [spec, spec], "steps": steps, "fuel": 100000}); meta.append(("mix", pi, bpos))
+            jobs.append({"id": "mix-%d-%d" % (pi, k), "interps": [aspec, spec], "steps": steps, "fuel": 100000}); meta.append(("mix", pi, bpos))
     recs = core.run_jobs(jobs, "dev", timeout=900 if tier == "quick" else 3000, tag="c19")
     alone = {}
     for (kind, pi, bpos), rec in zip(meta, recs):
